@@ -19,6 +19,8 @@ From GV Require Import Base.Ints Gen.Math Gen.Kernel Model.Mirror Model.MirrorMg
   Proofs.MirrorResumeWit Proofs.MirrorResumeLoad Proofs.MirrorResumeRT Proofs.MirrorResumeInv
   Proofs.MirrorResumeOps Proofs.MirrorResumeOps2 Proofs.MirrorResumeOps4 Proofs.MirrorResume
   Proofs.MirrorTotalX.
+(* Proofs.MirrorResumeRT has a helper that is also called [mstep]: the model's name must win *)
+Import Model.MirrorMgr.
 Import ListNotations.
 Local Open Scope N_scope.
 
@@ -189,10 +191,10 @@ Lemma mstep_kernel_exact s o s' r io : mstep s o = Ok (s', r, io) ->
 Proof.
   intros H. destruct o as [x|h0 r0| | |h0 r0 key0|a].
   - exact (mstep_MK _ _ _ _ _ H).
-  - exact (proj1 (quiet_keeps_kernel _ _ _ _ _ eq_refl H)).
-  - exact (proj1 (quiet_keeps_kernel _ _ _ _ _ eq_refl H)).
-  - exact (proj1 (quiet_keeps_kernel _ _ _ _ _ eq_refl H)).
-  - exact (proj1 (quiet_keeps_kernel _ _ _ _ _ eq_refl H)).
+  - exact (proj1 (quiet_keeps_kernel s (MEnter h0 r0) s' r io eq_refl H)).
+  - exact (proj1 (quiet_keeps_kernel s MSMRead s' r io eq_refl H)).
+  - exact (proj1 (quiet_keeps_kernel s MGRead s' r io eq_refl H)).
+  - exact (proj1 (quiet_keeps_kernel s (MEnterK h0 r0 key0) s' r io eq_refl H)).
   - exact (proj1 (mstep_MAct _ _ _ _ _ H)).
 Qed.
 
